@@ -6,18 +6,30 @@ PROP = Prop(
                                      "Client.AddConsumeTopics", "consumer.assignPartitions"]),
             ("pkg/kgo/topics_and_partitions.go", ["mtmps.remove", "mtmps.onlyt", "mtmps.add", "mtmps.addt"])],
     rule="scenario = direct consumer of this tree, 40%: ConsumeTopics(1-3 names, some not created yet, internal topics named explicitly) + ConsumePartitions(pinned partitions, some not existing yet), "
-         "60%: ConsumeRegex with 1-2 include patterns and 0-2 exclude patterns, MetadataMinAge 50 ms / MaxAge 250 ms, against a real kfake; a script of 16-29 steps: create a topic "
+         "60%: ConsumeRegex with 1-2 include patterns and 0-2 exclude patterns, MetadataMinAge 50 ms / MaxAge 250 ms, ConsiderMissingTopicDeletedAfter 4 s (virtual), against a real kfake; a script of 16-29 steps: create a topic "
          "(10 names: matching, non-matching, two internal topics __consumer_offsets/__transaction_state and an internal one with an ordinary name, an internal-looking non-internal one), "
          "grow partitions, delete a topic, AddConsumeTopics, AddConsumePartitions, RemoveConsumePartitions (1-2 partitions, existing or not), PurgeTopicsFromConsuming, producer round "
-         "(one identifiable record to every partition of every existing topic), sleep; 1-3 polls after every step; quiet end: producer round, 3 s of polls, producer round, at least 3 s of polls and until 4 empty ones; "
-         "events: configuration, every call with arguments, every acknowledged and every returned record, metadata responses delivered to the consumer (refresh marks); "
+         "(one record with a unique key to every partition of every existing topic), sleep; 1-3 polls after every step; "
+         "70% of the scenarios carry a re-creation plan (own random stream): at a random step a topic (85% one the consumer selects) is deleted through the admin client and created again under the same name "
+         "(new topic ID, 1-4 partitions) after 0.6-2.0 s (40%, shorter than the window) or 5.5-8 s (30%, longer), the script continuing in between, later producer rounds writing to the new incarnation, "
+         "25% with a second deletion + re-creation; regex: the topic is deleted once the client has known it for the window + 2 s and re-created after the consumer received two metadata responses without it; "
+         "named: the user purges and adds the re-created topic again (at once or up to 1 s later, and on every UNKNOWN_TOPIC_ID poll error); "
+         "quiet end: producer round, 3 s of polls, producer round, at least 3 s (with a plan: 7 s = window + 3 s) of polls and until 4 empty ones; "
+         "events: configuration, every call with arguments, topic creations with their incarnation number, every acknowledged and every returned record with the incarnation it was produced to, "
+         "metadata responses delivered to the consumer (refresh marks); "
          "non-trivial = at least 5 returned records and at least 3 of the calls / growth / deletion steps",
     trusted_base=["history monitor Model.Select with the selection rule written from the property text and the documentation of the calls",
                   "regex matching of topic names is evaluated by Go's regexp in the harness and handed to the monitor as flags",
                   "ground truth = the harness's own call log and producer acknowledgements; refresh marks from the wire (Metadata responses on connections of the consumer's client id)",
                   "harness/sim (synctest bubble)", "Lean compiler/runtime for the driver"],
-    assumptions=["all calls, producer rounds and polls of a scenario run in one goroutine (program order = event order); topics are never re-created after deletion",
-                 "coverage is judged after the script ended, two further producer rounds, six seconds (virtual) of polls and four consecutive empty polls, for partitions that exist and are selected at the end",
+    assumptions=["all calls, producer rounds and polls of a scenario run in one goroutine (program order = event order)",
+                 "coverage is judged after the script ended, two further producer rounds, six to ten seconds (virtual) of polls and four consecutive empty polls, for partitions that exist and are selected at the end, "
+                 "for the records acknowledged by the CURRENT incarnation of their topic (a deleted and re-created topic is a new topic: records of a deleted incarnation are not owed; "
+                 "they may still be returned until the first record of the new incarnation was returned, never after)",
+                 "topic re-creation, regex selection: judged inside the envelope of the client's 'missing topic => deleted => purge' rule: the topic was known for longer than ConsiderMissingTopicDeletedAfter when it was deleted "
+                 "and the client saw at least one metadata response without it before the re-creation (a younger topic, or one re-created between two refreshes, keeps cursors with the old topic ID on this tree "
+                 "and stalls with UNKNOWN_TOPIC_ID: plan `y`, never generated, key C39.young-topic-recreated-at-once-never-consumed)",
+                 "topic re-creation, named selection: the cursors deliberately keep the old topic ID (pkg/kgo/source.go cursor.topicID: 'stalls loudly ... the user must purge+re-add'); the scenario's user does purge and re-add",
                  "every partition is consumed from its start (ConsumeTopics default, AtStart for pinned partitions), so a re-selected partition re-delivers its records (not a C39 matter)",
                  "regex selection: a purged topic that still exists is re-selected at the next metadata refresh (documented on PurgeTopicsFromClient); a record of it before that refresh is refused",
                  "named selection: a whole topic whose existing partitions were all removed is no longer selected (documented on RemoveConsumePartitions)"],
@@ -27,7 +39,8 @@ MANIFEST = {
     "text": "Verified monitor: Lean theorems over ALL accepted histories of topic creation/growth/deletion interleaved with AddConsumeTopics, AddConsumePartitions, RemoveConsumePartitions, purges, "
             "producer rounds, polls and metadata refreshes: every returned record belongs to a partition selected at that moment; under regex selection only non-internal, matching, non-excluded topics; "
             "after RemoveConsumePartitions / PurgeTopicsFromConsuming nothing of the removed partitions returns unless re-selected by a later call (regex: only after a metadata refresh, never for a topic deleted "
-            "before the purge); at the quiescent end every acknowledged record of every existing selected partition was returned (incl. topics created later and grown partitions). "
+            "before the purge); at the quiescent end every record acknowledged by the current incarnation of every existing selected partition was returned (incl. topics created later, grown partitions and topics deleted and "
+            "re-created under the same name, inside and outside ConsiderMissingTopicDeletedAfter); once a record of a new incarnation of a topic was returned nothing of a deleted incarnation is. "
             "Tie: history correspondence with the real kgo direct consumer x kfake.",
     "note": "Trusted: Lean kernel; monitor vocabulary and selection rule; harness; Go regexp. Findings on this tree (known_findings.txt): a whole-topic selection is demoted by AddConsumePartitions "
             "and forgotten after a partial RemoveConsumePartitions (directConsumer.m conflates 'no pinned partitions' with 'whole topic'): later partitions are never consumed.",
